@@ -408,6 +408,6 @@ def tasks(tier):
     widths = (2,) if tier == 'quick' else (2, 3, 4)
     for w in widths:
         for cls in RUNTIME:
-            out.append(task(MOD, 'ob_fold_operator', ('C14',), label=f'py/fold/{cls}/w{w}', cls=cls, w=w, cost=3))
+            out.append(task(MOD, 'ob_fold_operator', ('C14',), label=f'py/fold/{cls}/w{w}', cls=cls, w=w, cost=3, _isolate=(cls == 'Mul')))
         out.append(task(MOD, 'ob_casts', ('C14',), label=f'py/fold/casts/w{w}', w=w))
     return out
